@@ -333,6 +333,45 @@ def r03_4(ck, sa):
             for side in [n.left] + n.comparators:
                 if isinstance(side, ast.Name) and 'emit' in side.id:
                     names.add(side.id)
+    # the clock itself: locals assigned to self.global_time
+    for a in rf.advance_stmts():
+        if isinstance(a, ast.Assign) and isinstance(a.value, ast.Name) and \
+                a.value.id in defs and a.value.id != 'end_time':
+            names.add(a.value.id)
+        manufactured = isinstance(a, ast.AugAssign) or (
+            isinstance(a, ast.Assign) and any(
+                isinstance(x, ast.BinOp) and isinstance(
+                    x.op, (ast.Add, ast.Sub)) for x in ast.walk(a.value)))
+        if manufactured:
+            # g + (f - g) is not always f in floating point
+            an = cfg.node(a)
+            rounds = set()
+            for s2 in A.walk_no_nested(f.node):
+                if isinstance(s2, ast.Assign) and any(
+                        A.is_self_attr(t, 'global_time')
+                        for t in s2.targets) and isinstance(
+                        s2.value, ast.Call) and A.call_name(
+                        s2.value) == 'round' and 'global_time' in \
+                        A.unparse(s2.value.args[0]):
+                    rounds.add(cfg.node(s2))
+            skip = set()
+            for nn, info in cfg.info.items():
+                if info['kind'] == 'edge' and info.get('cond') is not None:
+                    at = A.cond_atoms(info['cond'], info['pol'])
+                    if ('is', 'self.global_time_precision', 'None') in at:
+                        skip.add(nn)
+            hdr = cfg.loops[id(rf.while_loop)]['header']
+            succ = set(cfg.g.successors(an))
+            ok = bool(rounds) and all(
+                x in rounds or x in skip or cfg.must_pass(
+                    x, {hdr, cfg.exit}, rounds | skip) for x in succ)
+            ck.require(ok, 'R03.4', f, a,
+                       'a clock value manufactured by addition is rounded '
+                       '(when a precision is set) before anything uses it',
+                       'global_time is advanced by an addition and not put '
+                       'back on the grid: g + (f - g) can differ from f by '
+                       'one ulp, the clock passes an event due exactly at '
+                       'the end and its update is never applied', a)
     n_sites = 0
     for name in sorted(names):
         for d in defs.get(name, []):
